@@ -8,6 +8,27 @@ use std::{
 
 pub struct Counting;
 
+/// A single request of this size or more is never legitimate in a simulated run; the system allocator
+/// would refuse it and the process would abort (allocation failure does not unwind), so the trap
+/// registered by the runner reports it as a violation with a replay file instead.
+pub const HUGE: usize = 1 << 30;
+static TRAP: std::sync::atomic::AtomicUsize = std::sync::atomic::AtomicUsize::new(0);
+
+pub fn set_trap(f: fn(usize)) {
+    TRAP.store(f as usize, std::sync::atomic::Ordering::SeqCst);
+}
+
+#[cold]
+#[allow(unsafe_code)]
+fn huge(size: usize) {
+    let f = TRAP.load(std::sync::atomic::Ordering::SeqCst);
+    if f != 0 {
+        // SAFETY: only `set_trap` stores here, and it stores a `fn(usize)`
+        let f: fn(usize) = unsafe { std::mem::transmute(f) };
+        f(size);
+    }
+}
+
 thread_local! {
     static LIVE: Cell<isize> = const { Cell::new(0) };
     static PEAK: Cell<isize> = const { Cell::new(0) };
@@ -55,6 +76,9 @@ fn on_free(size: usize) {
 #[allow(unsafe_code)]
 unsafe impl GlobalAlloc for Counting {
     unsafe fn alloc(&self, layout: Layout) -> *mut u8 {
+        if layout.size() >= HUGE {
+            huge(layout.size());
+        }
         let p = System.alloc(layout);
         if !p.is_null() {
             on_alloc(layout.size());
@@ -62,6 +86,9 @@ unsafe impl GlobalAlloc for Counting {
         p
     }
     unsafe fn alloc_zeroed(&self, layout: Layout) -> *mut u8 {
+        if layout.size() >= HUGE {
+            huge(layout.size());
+        }
         let p = System.alloc_zeroed(layout);
         if !p.is_null() {
             on_alloc(layout.size());
@@ -73,6 +100,9 @@ unsafe impl GlobalAlloc for Counting {
         on_free(layout.size());
     }
     unsafe fn realloc(&self, ptr: *mut u8, layout: Layout, new_size: usize) -> *mut u8 {
+        if new_size >= HUGE {
+            huge(new_size);
+        }
         let p = System.realloc(ptr, layout, new_size);
         if !p.is_null() {
             on_free(layout.size());
